@@ -421,7 +421,7 @@ def check(run):
             text = c['texts'][c['block']]
             lx, toks = lexemes(text)
             zz = [t for t in toks if t[2] == 'zz9']
-            ue = [e for e in real_errs if 'nknown_identifier' in e['msg'] or 'zz9' in e['msg']]
+            ue = [e for e in real_errs if 'nknown_identifier' in e['msg'] or 'zz9' in e['msg']] or [e for e in real_errs if 'Not_a_template' in e['msg'] and e['path'] == c['path']]
             if zz and ue:
                 queries.append('%d %d | %s' % (zz[0][0], zz[0][1], ' '.join('%d:%d' % l for l in lx)))
                 qmeta.append((c, ue[0], text))
@@ -440,11 +440,14 @@ def check(run):
         if (e['l1'], e['c1'], e['l2'], e['c2']) != (ml1, mc1, ml2, mc2):
             if '"' in text:
                 shape = 'string-literal-line-shift'
+            elif 'Not_a_template' in e['msg']:
+                shape = 'undeclared-range:not-a-template'
             else:
                 shape = 'undeclared-range'
             run.fail('undeclared identifier in %s: reported %d:%d..%d:%d, the identifier is at %d:%d..%d:%d' % (c['block'], e['l1'], e['c1'], e['l2'], e['c2'], ml1, mc1, ml2, mc2),
                      dict(xml=c['xml'], error=e, expected=[ml1, mc1, ml2, mc2], text=text), shape=shape)
-            pmism.append(dict(block=c['block'], text=text[:200], model=[ml1, mc1, ml2, mc2], implementation=[e['l1'], e['c1'], e['l2'], e['c2']]))
+            if shape == 'undeclared-range':
+                pmism.append(dict(block=c['block'], text=text[:200], model=[ml1, mc1, ml2, mc2], implementation=[e['l1'], e['c1'], e['l2'], e['c2']]))
     if pmism:
         run.tie_broken('line/column model vs implementation on undeclared-identifier faults', pmism[:5] + [dict(total=len(pmism))])
     npt = plain_text(run, rng, 400 if thorough else 120)
